@@ -1,6 +1,7 @@
 """C03 Left-recursive grammars are rejected; accepted grammars always terminate."""
 import itertools
 import resource
+import sys
 
 import pathlib
 
@@ -41,11 +42,12 @@ TIERS = {
 }
 FLOORS = {"quick": {"parses_raised_lexical_error": 800, "texts_with_a_character_no_token_matches": 1100,
                     "distinct_nontrivial": 2000, "left_recursive_rejected": 1500, "accepted_grammars": 2000,
-                    "hidden_cycle_orders_seen": 62, "pushes_observed": 100000, "right_recursion_grammars_accepted": 800},
+                    "hidden_cycle_orders_seen": 62, "pushes_observed": 100000, "right_recursion_grammars_accepted": 800,
+                    "long_cycles_rejected": 8, "long_chains_accepted": 8},
           "thorough": {"parses_raised_lexical_error": 3200, "texts_with_a_character_no_token_matches": 4500,
                        "distinct_nontrivial": 50000, "left_recursive_rejected": 40000,
                        "accepted_grammars": 50000, "hidden_cycle_orders_seen": 62, "right_recursion_grammars_accepted": 20000,
-                       "pushes_observed": 3000000}}
+                       "pushes_observed": 3000000, "long_cycles_rejected": 30, "long_chains_accepted": 30}}
 CEILINGS = {"quick": {"inconclusive_cases": 50}, "thorough": {"inconclusive_cases": 2000}}
 LEVEL_TEXT = ("Runtime exploration: the constructor's verdict is compared with an independent cycle search on "
               "tens of thousands of grammars including every name-order permutation of hidden cycles, and "
@@ -483,13 +485,100 @@ def shared_helper_case(ctx):
                                                'WORD': [('a', 'NUM')]})
 
 
+def shared_template_case(ctx):
+    """one productions description with a sequence template in it is given to two parsers with different
+    tokenizers; a token name of the first is an optional non-terminal of the second. Neither grammar has a token-free
+    cycle (the package may refuse to use a template twice - but not with 'grammar is recursive')"""
+    tok1 = r"(?P<SPACE>\s+)|(?P<WORD>[a-z]+)|(?P<SEMI>;)"
+    tok2 = r"(?P<SPACE>\s+)|(?P<ID>[a-z]+)|(?P<SEMI>;)"
+
+    def common():
+        return {'E': [('SEQ', 'SEMI')], 'SEQ': llparser.ProdSequence(llparser.AnyTokenExcept('SEMI'))}
+
+    def second(desc):
+        prods = dict(desc)
+        prods['HEAD'] = [('WORD', 'E')]
+        prods['WORD'] = [('ID',), None]
+        return llparser.LLParser(tok2, productions=prods, start_symbol_name='HEAD')
+
+    for shared in (False, True):
+        if shared and sys.flags.optimize:
+            # the package forbids the second use with an assert statement: without assert statements the second use
+            # is a use outside the package's contract
+            ctx.count("template_used_twice_without_asserts(out of domain)")
+            continue
+        ctx.evaluated()
+        case = {"kind": "shared-sequence-template"}
+        desc = common()
+        try:
+            if shared:
+                llparser.LLParser(tok1, productions=dict(desc)).parse("a b c ;")
+            parser = second(desc)
+        except llparser.GrammarIsRecursive as err:
+            ctx.violation("non-recursive-grammar-rejected", {"family": "productions description used for a second parser",
+                                                             "used_before": shared, "msg": str(err)[-150:]}, case)
+            continue
+        except (llparser.GrammarError, AssertionError):
+            ctx.count("template_used_twice_refused(out of domain)")
+            continue
+        except Exception as err:
+            ctx.violation("constructor-raises-other-exception", {"type": type(err).__name__, "msg": str(err)[:120]}, case)
+            continue
+        ctx.count("accepted_grammars")
+        try:
+            parser.parse("a b c ;")
+        except llparser.Error:
+            pass
+        except Exception as err:
+            ctx.violation("parse-raises-other-exception", {"text": "a b c ;", "type": type(err).__name__}, case)
+
+
+def long_cycle_case(ctx, mon, n, broken_at=None):
+    """a token-free cycle through n distinct symbols (S0 -> S1 x | a, S1 -> S2 x | a, ..., S(n-1) -> S0 x | a); with
+    `broken_at` one link of the chain starts with a token instead, and the grammar has no cycle"""
+    prods = {}
+    for k in range(n):
+        nxt = "S%d" % ((k + 1) % n)
+        prods["S%d" % k] = [(nxt, 'x') if k != broken_at else ('y', nxt, 'x'), ('a',)]
+    tok = r"(?P<SPACE>\s+)|(?P<A>a)|(?P<X>x)|(?P<Y>y)"
+    case = {"kind": "long-cycle", "n": n, "broken_at": broken_at}
+    ctx.evaluated()
+    mon.start_ctor(None)
+    try:
+        llparser.LLParser(tok, synonyms={'A': 'a', 'X': 'x', 'Y': 'y'}, productions=prods, start_symbol_name='S0')
+    except llparser.GrammarIsRecursive:
+        if broken_at is not None:
+            ctx.violation("non-recursive-grammar-rejected", {"family": "long chain", "symbols": n}, case)
+        else:
+            ctx.count("long_cycles_rejected")
+        return
+    except llparser.GrammarError as err:
+        ctx.violation("unexpected-grammar-error", {"msg": str(err)[-200:], "symbols": n}, case)
+        return
+    except RecursionError:
+        ctx.violation("constructor-recursion-error", {"symbols": n}, case)
+        return
+    finally:
+        # (the search is quadratic in the length of such a chain: reported on its own, without a bound)
+        ctx.maxi("max_lines_of_cycle_search_in_a_long_chain", mon.ctor_lines)
+        mon.ctor_lines = 0
+    if broken_at is None:
+        ctx.violation("left-recursive-grammar-accepted", {"family": "long cycle", "symbols_in_the_cycle": n}, case)
+    else:
+        ctx.count("long_chains_accepted")
+
+
 def run_shard(ctx):
     resource.setrlimit(resource.RLIMIT_AS, (3 << 30, 3 << 30))
     mon = llmon.ParseMonitor()
     orders = set()
     try:
+        for n in ((40, 255, 256, 257, 300, 700) if ctx.shard == 0 else (ctx.shard * 97 + 150, ctx.shard * 211 + 900)):
+            long_cycle_case(ctx, mon, n)
+            long_cycle_case(ctx, mon, n, broken_at=n // 3)
         if ctx.shard == 0:
             shared_helper_case(ctx)
+            shared_template_case(ctx)
             for opts in itertools.product((False, True), repeat=7):
                 if opts[5] and not opts[4]:
                     continue    # (a terminal bracket cannot be empty)
@@ -521,6 +610,12 @@ def replay(ctx, case):
     try:
         if case.get("kind") == "shared-any-token-except":
             shared_helper_case(ctx)
+            return
+        if case.get("kind") == "shared-sequence-template":
+            shared_template_case(ctx)
+            return
+        if case.get("kind") == "long-cycle":
+            long_cycle_case(ctx, mon, case["n"], case.get("broken_at"))
             return
         if case.get("kind") == "list-template":
             run_list_template_case(ctx, mon, tuple(case["opts"]))
